@@ -112,7 +112,24 @@ package ttlcache
 //@   ghost nclose int
 //@   requires c != nil
 //@   modifies c.stopped.v
+//@   ghost njoin int
 //@   at before call CompareAndSwap#0 ghost nclose = 0
+//@   at before call CompareAndSwap#0 ghost njoin = 0
 //@   at close#0 ghost nclose = nclose + 1
+//@   at every recv ghost njoin = njoin + (arg0 == c.runningCh ? 1 : 0)
 //@   ensures [C15.stop.flag] c.stopped.v == 1 || (old(c.stopped.v) != 0 && c.stopped.v == old(c.stopped.v))
 //@   ensures [C15.stop.once] nclose == (old(c.stopped.v) == 0 ? 1 : 0)
+// every Stop -- also one that finds the cache already being stopped by another call -- returns only after a receive on
+// runningCh, which the cleaner goroutine closes as its very last action (startBackgroundCleanup$1 below)
+//@   ensures [C15.stop.join] njoin >= 1
+
+// The cleaner goroutine: it leaves its loop only when stopCh is readable (closed by Stop), and closing runningCh -- what
+// every Stop waits for -- is the last thing it does (deferred first, so run last), never earlier.
+//@ func (*Cache).startBackgroundCleanup$1
+//@   tags C15
+//@   requires c != nil && c.clock != nil && inv(c)
+//@   ghost stopseen int
+//@   at call NewTicker#0 ghost stopseen = 0
+//@   at select#0 ghost stopseen = (res0 == 0 ? 1 : 0)
+//@   at every before close assert [C15.cleaner.close-last] stopseen == 1 && arg0 == old(c.runningCh)
+//@   loop 0 invariant stopseen == 0 && c != nil && inv(c)
